@@ -52,8 +52,10 @@ func (s *sessionMetadatasState) mergeSessions(sessions []*api.SessionMetadatas) 
 	return nil
 }
 func (s *sessionMetadatasState) dump(event *api.StateBroadcastEvent) {
-	sessions := s.All()
-	for _, session := range sessions {
+	s.mu.Lock()
+	defer s.mu.Unlock()
+	// removed sessions are part of the state: a peer that missed the removal learns it from the snapshot
+	for _, session := range s.sessions {
 		session := session
 		event.SessionMetadatas = append(event.SessionMetadatas, &session)
 	}
